@@ -7,6 +7,8 @@ import time
 
 VERIF = os.path.dirname(os.path.dirname(os.path.abspath(__file__)))
 KNOWN = os.path.join(VERIF, "known-findings.txt")
+# mutant / scratch runs redirect evidence and reports so the committed evidence is untouched
+OUT = os.environ.get("LMS_OUT", VERIF)
 
 
 def load_known():
@@ -101,8 +103,8 @@ class Check:
                 kf.append(v)
             else:
                 new.append(v)
-        os.makedirs(os.path.join(VERIF, "evidence"), exist_ok=True)
-        os.makedirs(os.path.join(VERIF, "reports"), exist_ok=True)
+        os.makedirs(os.path.join(OUT, "evidence"), exist_ok=True)
+        os.makedirs(os.path.join(OUT, "reports"), exist_ok=True)
         total = len(self.obligations)
         ok = sum(1 for o in self.obligations if o[2])
         cov = {
@@ -132,7 +134,7 @@ class Check:
             "wall_s": round(time.time() - self.t0, 3),
             "violations": len(new),
         }
-        with open(os.path.join(VERIF, "evidence", "%s.json" % self.pid), "w") as fh:
+        with open(os.path.join(OUT, "evidence", "%s.json" % self.pid), "w") as fh:
             json.dump(ev, fh, indent=1, sort_keys=False)
             fh.write("\n")
         for v in kf:
@@ -140,7 +142,7 @@ class Check:
         for v in new:
             h = hashlib.sha1(v["key"].encode()).hexdigest()[:10]
             rp = os.path.join("reports", "%s-%s.json" % (self.pid, h))
-            with open(os.path.join(VERIF, rp), "w") as fh:
+            with open(os.path.join(OUT, rp), "w") as fh:
                 json.dump(
                     {
                         "property": self.pid,
